@@ -1,5 +1,7 @@
 import AL.Model.Render
 import AL.Model.Proc
+import AL.Model.Positions
+import AL.Model.Parser
 import Driver.Util
 namespace Driver.RenderD
 open AL.Render Driver
@@ -43,6 +45,27 @@ def handleSanitize : List String → String
     match AL.unhex s with
     | none => "bad-op"
     | some src => AL.hexBytes (AL.Proc.sanitize src)
+  | _ => "bad-op"
+
+end Driver.RenderD
+
+namespace Driver.RenderD
+open AL
+
+/-- `exproffsets <scalarhex>`: byte offsets at which `checkExprsIn` starts an expression; the lexer model
+supplies `offsetAfter` -/
+def handleExprOffsets : List String → String
+  | [h] =>
+    match AL.unhex h with
+    | none => "bad-op"
+    | some s =>
+      let consume (rest : List Nat) : Nat :=
+        -- `checkSemantics`: a lexer or parser error ends the scan of this scalar
+        match AL.Lex.lexExpression (AL.decodeUtf8 rest), AL.Parse.parseToks (AL.Lex.tokens (AL.decodeUtf8 rest)) with
+        | .ok (_, off), .ok _ => off
+        | _, _ => 0
+      let offs := AL.Positions.exprOffsets consume s.length s 0
+      ",".intercalate (offs.map toString)
   | _ => "bad-op"
 
 end Driver.RenderD
